@@ -341,6 +341,16 @@ def r_merge_flat(ck: Checker) -> None:
                     isinstance(op, ast.Lambda) and len(op.args.args) == 2 and isinstance(op.body, ast.BinOp) and isinstance(op.body.op, ast.Add)
                     and norm(op.body.left) == op.args.args[0].arg and norm(op.body.right) == op.args.args[1].arg)
                 ok = op_ok and norm(seq) == va and norm(init) == first
+    if not ok and len(loops) == 1:
+        # a positive pattern: on some path of the loop the accumulator is rebuilt with the flat merge instead of `accumulator + next`
+        accs = {norm(st.target) for st in walk_body(loops[0].body) if isinstance(st, ast.AugAssign) and isinstance(st.op, ast.Add)} | \
+            {norm(st.targets[0]) for st in walk_body(loops[0].body) if isinstance(st, ast.Assign) and isinstance(st.value, ast.BinOp) and isinstance(st.value.op, ast.Add)
+             and norm(st.value.left) == norm(st.targets[0])}
+        for st in walk_body(loops[0].body):
+            if isinstance(st, ast.Assign) and norm(st.targets[0]) in accs and isinstance(st.value, ast.Call) and dotted(st.value.func) in ("merge_origins", "MultiOrigin"):
+                ck.violation("R-MERGE-FLAT", c, st, what, construct=f"concat_origins: on one path the accumulator becomes {norm(st.value)[:50]} instead of accumulator + next: "
+                             "the result is no longer the left fold of + over the operands")
+                return
     if not ok and not any("+" in norm(x) or "add" in norm(x) for x in c.node.body):
         ok = False
     elif not ok:
